@@ -1,0 +1,8 @@
+//go:build !verif
+
+// Package verifhook contains named hook points used by the external runtime
+// verification harness.  Without the "verif" build tag all hooks are no-ops.
+package verifhook
+
+// Hit does nothing without the "verif" build tag.
+func Hit(_ string) {}
